@@ -381,4 +381,15 @@ def minScoreRatioDen : Int := 10
 def sortFiles (ms : List FileEnt) : List FileEnt :=
   boostNovelExtension (sortDesc (·.score) ms) boostOffset minScoreRatioNum minScoreRatioDen
 
+/-- `collectSender` (search/aggregate.go), the aggregator behind `shardedSearcher.Search` and the FlushWallTime
+    collector of `StreamSearch`: with a display limit every non-empty chunk is appended and the whole aggregate is
+    re-ranked (`SortFiles`) and truncated (`MaxDocDisplayCount = docLimit`: the first `docLimit` files); without a
+    limit the chunks are only appended and `Done` ranks once. `chunks` is the arrival order. -/
+def collectStep (docLimit : Nat) (agg chunk : List FileEnt) : List FileEnt :=
+  if chunk.isEmpty then agg else (sortFiles (agg ++ chunk)).take docLimit
+
+def collect (docLimit : Nat) (chunks : List (List FileEnt)) : List FileEnt :=
+  if docLimit > 0 then chunks.foldl (collectStep docLimit) []
+  else sortFiles chunks.flatten
+
 end ZoektModel.C29
